@@ -53,6 +53,7 @@ from cohdl._core._boolean import _Boolean, _BooleanLiteral
 from cohdl._core._boolean import true as cohdl_true
 from cohdl._core._array import Array
 from cohdl._core._bit_vector import BitVector
+from cohdl._core._integer import Integer
 
 from cohdl._core._collect_ast_and_scope import (
     InstantiatedFunction,
@@ -330,6 +331,9 @@ class PrepareAst:
                 elif isinstance(selector, BitVector):
                     value_cnt = 2**selector.width
                 else:
+                    assert not isinstance(
+                        selector, (int, Integer)
+                    ), "select_with on an integer selector requires a default value"
                     value_cnt = 2
 
                 assert (
